@@ -98,6 +98,67 @@ func (c06Any) Nth(list interface{}, i int) (interface{}, error) {
 	return l[i], nil
 }
 
+// c06QS: a reflected struct whose list is a typed Go slice (walked with
+// reflect by resolveList)
+type c06QS struct {
+	L []*c06Elem
+	A int32
+}
+
+const c06Strategies = 4 // []interface{}, ListResolver, root resolver with Nth, reflected typed slice
+
+func c06Root(strategy int, elems []*c06Elem) *ggql.Root {
+	var root *ggql.Root
+	switch strategy {
+	case 2:
+		root = ggql.NewRoot(map[string]interface{}{"query": map[string]interface{}{"l": elems, "a": int32(9)}})
+		root.AnyResolver = c06Any{}
+	case 3:
+		root = ggql.NewRoot(&struct{ Query *c06QS }{&c06QS{L: elems, A: 9}})
+	default:
+		root = ggql.NewRoot(&c06Query{elems: elems, kind: strategy})
+	}
+	if err := root.ParseString(kitSchema); err != nil {
+		panic("harness schema rejected: " + err.Error())
+	}
+	return root
+}
+
+func c06Elems(n int, accessor bool) []*c06Elem {
+	elems := make([]*c06Elem, n)
+	for k := range elems {
+		en := "e" + string(rune('0'+k))
+		e := &c06Elem{k: k, a: sym.Int32(en + ".a"), s: sym.String(en+".s", 1)}
+		e.failA = sym.Bool(en + " a fails")
+		e.failS = sym.Bool(en + " s fails")
+		e.badA = sym.Bool(en + " a has the wrong kind")
+		if accessor {
+			e.nth = sym.Bool(en + " accessor fails")
+		}
+		elems[k] = e
+	}
+	return elems
+}
+
+// C02_errors: the same failures under every way a list can be backed give
+// the same response, error paths included.
+func C02_errors() {
+	maxN := 2
+	if sym.Thorough() {
+		maxN = 3
+	}
+	n := 1 + sym.Choice("len", maxN)
+	elems := c06Elems(n, false)
+	doc := "{l{a s} a}"
+	sym.Budget(12_000_000)
+	base := c06Root(0, elems).ResolveString(doc, "", nil)
+	sym.Observe("base", base)
+	other := 1 + sym.Choice("list strategy", c06Strategies-1)
+	got := c06Root(other, elems).ResolveString(doc, "", nil)
+	sym.Observe("got", got)
+	sym.Assert(sym.DeepEqual(interface{}(got), interface{}(base)), "same response under every list strategy")
+}
+
 // C06_multi: {l{a s} a} over a list of N elements with every combination of
 // failures.
 func C06_multi() {
@@ -106,29 +167,9 @@ func C06_multi() {
 		maxN = 3
 	}
 	n := 1 + sym.Choice("len", maxN)
-	strategy := sym.Choice("list strategy", 3)
-	elems := make([]*c06Elem, n)
-	for k := range elems {
-		en := "e" + string(rune('0'+k))
-		e := &c06Elem{k: k, a: sym.Int32(en + ".a"), s: sym.String(en+".s", 1)}
-		e.failA = sym.Bool(en + " a fails")
-		e.failS = sym.Bool(en + " s fails")
-		e.badA = sym.Bool(en + " a has the wrong kind")
-		if strategy == 2 {
-			e.nth = sym.Bool(en + " accessor fails")
-		}
-		elems[k] = e
-	}
-	var root *ggql.Root
-	if strategy == 2 {
-		root = ggql.NewRoot(map[string]interface{}{"query": map[string]interface{}{"l": elems, "a": int32(9)}})
-		root.AnyResolver = c06Any{}
-	} else {
-		root = ggql.NewRoot(&c06Query{elems: elems, kind: strategy})
-	}
-	if err := root.ParseString(kitSchema); err != nil {
-		panic("harness schema rejected: " + err.Error())
-	}
+	strategy := sym.Choice("list strategy", c06Strategies)
+	elems := c06Elems(n, strategy == 2)
+	root := c06Root(strategy, elems)
 	alias := sym.Choice("alias", 2) == 1
 	doc := "{l{a s} a}"
 	akey := "a"
